@@ -18,7 +18,7 @@ from __future__ import annotations
 
 import ast
 
-from ..model import Program, AnalysisError
+from ..model import Program, AnalysisError, dotted
 from ..report import Result
 from .. import guards as G
 from . import eo_common as E
@@ -199,6 +199,16 @@ def sign_pairs(prog: Program, res: Result) -> None:
     for n in ast.walk(fi.node):
         if isinstance(n, ast.Assign) and len(n.targets) == 1 and isinstance(n.targets[0], ast.Name) and ast.unparse(n.value).endswith(".factor_matrices"):
             fm_lists.add(n.targets[0].id)
+    # loop variables that range over the factor matrices (for m in K.factor_matrices[1:], for i, m in enumerate(fms))
+    for n in ast.walk(fi.node):
+        if isinstance(n, ast.For):
+            tgt, it = n.target, n.iter
+            if isinstance(it, ast.Call) and (dotted(it.func) or "") == "enumerate" and it.args and isinstance(tgt, ast.Tuple) and len(tgt.elts) == 2:
+                tgt, it = tgt.elts[1], it.args[0]
+            while isinstance(it, ast.Subscript) and isinstance(it.slice, ast.Slice):
+                it = it.value
+            if isinstance(tgt, ast.Name) and (ast.unparse(it).endswith(".factor_matrices") or (isinstance(it, ast.Name) and it.id in fm_lists)):
+                matrix_names.add(tgt.id)
     while changed:
         changed = False
         for n in ast.walk(fi.node):
